@@ -1692,7 +1692,9 @@ Examples:
                     try: x[i] += offset
                     except IndexError: pass
                 indx = trac.intersection(indx)
-                pairs = [m for m in pairs if m[0] in indx]
+                indx = [m for m in pairs if m[0] in indx]
+                if len(indx) == len(pairs): break # (what is left is a cycle)
+                pairs = indx
             return f(x, *args, **kwds)
         func.__wrapped__ = f   #XXX: getattr(f, '__wrapped__', f) ?
         func.__doc__ = f.__doc__
